@@ -304,6 +304,56 @@ def kill_worker(item):
     return dict(viol=viol, legs=r["legs"], calls=r["calls"], kills=kills)
 
 
+def real_kill_worker(item):
+    """Thorough: a real process is killed with os._exit at its k-th likelihood call; a second
+    real process resumes and completes; the parent then resumes the finished run in-process and
+    applies the result oracle."""
+    import json as _json
+    import subprocess
+    import sys as _sys
+    from nessai.flowsampler import FlowSampler
+    from mc import core
+
+    cfg, k = item
+    kind = cfg["kind"]
+    out = runs.scratch("c12real")
+    env = dict(os.environ)
+    env["PYTHONPATH"] = core.REPO + os.pathsep + env.get("PYTHONPATH", "")
+    env["NESSAI_REPO"] = core.REPO
+    script = os.path.join(core.VERIF, "mc", "c12_child.py")
+    errs = []
+    try:
+        args = [_sys.executable, script, kind, out, str(cfg.get("seed", 0)), str(k), _json.dumps(cfg.get("kwargs", {}))]
+        p1 = subprocess.run(args, env=env, capture_output=True, text=True, timeout=900)
+        if p1.returncode == 0:
+            return dict(viol=[], legs=1, finished_early=True)
+        if p1.returncode != 137:
+            return dict(viol=[], legs=0, harness=f"first leg exited {p1.returncode}: {p1.stderr[-300:]}")
+        args[5] = "0"
+        p2 = subprocess.run(args, env=env, capture_output=True, text=True, timeout=900)
+        if p2.returncode != 0:
+            errs.append(("resumed-process-failed", f"exit {p2.returncode}: {p2.stderr[-400:]}"))
+        else:
+            runs.reset_globals()
+            kw = (runs.std_base if kind == "std" else runs.ins_base)(cfg.get("seed", 0), **cfg.get("kwargs", {}))
+            model = make(cfg.get("model", "G2"))
+            fs = FlowSampler(model, output=out, resume=True, **copy.deepcopy(kw))
+            before = model.likelihood_evaluations
+            fs.run(plot=False, save=False)
+            if model.likelihood_evaluations != before:
+                errs.append(("finished-run-evaluates-again-on-resume", f"{before} -> {model.likelihood_evaluations}"))
+            (runs.check_std_results if kind == "std" else runs.check_ins_results)(fs, model, errs)
+    finally:
+        shutil.rmtree(out, ignore_errors=True)
+    key = runs.cfg_key(cfg)
+    seen, viol = set(), []
+    for k_, d in errs:
+        if k_ not in seen:
+            seen.add(k_)
+            viol.append((f"real-kill:{k_}@{key}", f"{k_}: {d} (os._exit at likelihood call {k}, config {cfg})", {"mode": "real-kill", "cfg": cfg, "k": k}))
+    return dict(viol=viol, legs=2)
+
+
 KILL_CFGS = [
     {"kind": "std", "model": "G2", "seed": 0, "kwargs": {"nlive": 10, "poolsize": 10, "checkpoint_interval": 5, "maximum_uninformed": 10}},
     {"kind": "ins", "model": "G2", "seed": 0, "kwargs": {"max_iteration": 3}},
@@ -371,6 +421,19 @@ def run(ctx):
         classes.add(("kill", it[0]["kind"], res["legs"]))
         for v in res["viol"]:
             ctx.violation(*v)
+    if not ctx.quick:
+        real_items = []
+        for cfg in kcfgs[:2]:
+            n = ncalls[runs.cfg_key(cfg)]
+            for k in range(1, n + 1, max(1, n // 40)):
+                real_items.append((cfg, k))
+        for it, res in ctx.pmap(real_kill_worker, real_items, nproc=12):
+            if res.get("harness"):
+                raise RuntimeError(f"real-kill child failed: {res['harness']}")
+            ctx.count("evaluations")
+            ctx.count("real_process_kills")
+            for v in res["viol"]:
+                ctx.violation(*v)
     ctx.set("likelihood_calls_per_kill_run", ncalls)
     ctx.set("distinct_nontrivial", len(classes))
     ctx.set("rule", "(a) every checkpoint of every run of the checkpoint lattice (iteration- and time-triggered, checkpoint_on_training, rejection and flow phases, populated/empty pools, masks as list and ndarray, clustering, uniform_nball, inversion, INS variants) compared field by field with its resumed copy; (b) one kill at every likelihood call of a short run of each sampler plus kill pairs on a lattice, each resumed to completion. Distinct/non-trivial: distinct (sampler, phase, pool populated, trained) checkpoint classes and (sampler, number of legs) kill classes")
@@ -388,5 +451,7 @@ def replay(ctx, data):
     if data.get("mode") == "checkpoint":
         r = checkpoint_worker(data["cfg"])
         return [v[1] for v in r["viol"]]
+    if data.get("mode") == "real-kill":
+        return [v[1] for v in real_kill_worker((data["cfg"], data["k"]))["viol"]]
     r = kill_worker((data["cfg"], tuple(data["kills"])))
     return [v[1] for v in r["viol"]]
